@@ -42,8 +42,9 @@ func (c *Ctx) Emit(format string, a ...interface{}) {
 
 // flushEveryLine (VERIF_FLUSH=1): the trace survives a crash of the process (a panic on a goroutine of the node under test)
 var flushEveryLine = os.Getenv("VERIF_FLUSH") != ""
-func (c *Ctx) Hit(k string)           { c.Stats[k]++ }
-func (c *Ctx) HitN(k string, n int)   { c.Stats[k] += n }
+
+func (c *Ctx) Hit(k string)         { c.Stats[k]++ }
+func (c *Ctx) HitN(k string, n int) { c.Stats[k] += n }
 func (c *Ctx) Fail(format string, a ...interface{}) {
 	s := fmt.Sprintf(format, a...)
 	c.Fails = append(c.Fails, s)
@@ -69,6 +70,10 @@ func main() {
 		sd, _ := strconv.ParseInt(os.Args[2], 10, 64)
 		nr, _ := strconv.Atoi(os.Args[3])
 		rpcServerChild(sd, nr)
+	case "p2pnet-child":
+		sd, _ := strconv.ParseInt(os.Args[2], 10, 64)
+		nr, _ := strconv.Atoi(os.Args[3])
+		p2pNetChild(sd, nr, os.Args[4], os.Args[5], os.Args[6])
 	case "facts":
 		fs := flag.NewFlagSet("facts", flag.ExitOnError)
 		out := fs.String("out", "", "output directory for Gen/*.lean")
